@@ -465,6 +465,24 @@ def b_cores(job):
             used = {c.get("nm") for c in body}
             nm = next(n for n in ("tw%d" % k for k in range(1, 50)) if n not in used)
             body.insert(i + rng.choice([0, 1]), {"c": "assert", "t": twin, "nm": nm, "inner": []})
+    if job.get("minimal") and len(g.bools) >= 2 and rng.random() < 0.25:
+        # two named reasons for one conflict, one implied by the other: (and a b), a, (not a) under three names, in any
+        # order, before the first check: every sound core contains (not a) and one of the other two
+        tb = g.tb
+        a, b = rng.sample(g.bools, 2)
+        if rng.random() < 0.5:
+            a = tb.app("not", [a])
+        trio = [tb.app("and", [a, b]), a, tb.app("not", [a])]
+        used = {c.get("nm") for c in body}
+        if not any(c["c"] == "assert" and c["t"] in trio for c in body) and not ({"ta", "tb", "tc"} & used):
+            ins = [{"c": "assert", "t": t, "nm": nm, "inner": []} for t, nm in zip(trio, ("ta", "tb", "tc"))]
+            if rng.random() < 0.6:
+                rng.shuffle(ins)
+            first_check = next((i for i, c in enumerate(body) if c["c"] == "check-sat"), len(body))
+            k = rng.randint(0, first_check)
+            # not inside a level that is popped before the first check
+            if not any(c["c"] in ("push", "pop") for c in body[:first_check]):
+                body[k:k] = ins
     cfg = job.get("cfg", "c0")
     cmds = G.preamble(g, opts + _opts(cfg)) + body
     fam = C.Family(g)
